@@ -256,7 +256,7 @@ pub fn shrink_value(v: &Value) -> Vec<Value> {
 }
 
 pub fn run(ctx: &Ctx) -> i32 {
-    let sims = ctx.n(192, 3000);
+    let sims = ctx.n(6000, 200000);
     let rep = run_batch(sims, ctx.workers, |i| {
         let seed = derive(ctx.seed, "C15", i);
         let mut rng = Rng::new(seed);
